@@ -286,6 +286,24 @@ def rule_after_baseline(ctx):
         # what is recorded are the hashes of available inputs, read inside a transaction
         srcs = [ast.unparse(c) for c in calls_in(am.node) if callee_name(c) in via]
         ctx.check(any("inp_paths()" in ast.unparse(am.node) and ("FileState.BUILT" in ast.unparse(am.node)) for _ in srcs), am.fq, "the recorded hashes are those of the step's available inputs", "source of the recorded hashes not recognised", "step.inp_paths() filtered on BUILT/CONFIRMED")
+    if via:
+        # ... and they are read after the last point of the handler at which inputs can still change state:
+        # an amended input that is UNCONFIRMED on arrival is hashed by run_promoted_hash_jobs; a snapshot taken before
+        # that await leaves it out, and the check after the command falls back to the database for it
+        n_paths = 0
+        for tr, st in flow.paths_of(am):
+            calls = [(k, e[1].split(".")[-1]) for k, e in enumerate(tr) if e[0] == "call"]
+            notes = [k for k, nm in calls if nm in via]
+            if not notes:
+                continue
+            promoted = [k for k, nm in calls if nm == "run_promoted_hash_jobs"]
+            reads = [k for k, nm in calls if nm == "inp_paths" and k < notes[-1]]
+            n_paths += 1
+            if promoted and not (reads and reads[-1] > promoted[-1]):
+                ctx.bad(am.fq, "the baseline is read after the promoted hash jobs of the same request", "the hashes are read before run_promoted_hash_jobs: an amended input that was UNCONFIRMED on arrival (a match of a static tree) gets no baseline, so a change that another step notices while this one runs goes unseen", where=ctx.where_of(am))
+                break
+        else:
+            ctx.check(n_paths > 0, am.fq, "the baseline is read after the promoted hash jobs of the same request", "no path records a baseline", f"{n_paths} paths")
     # (c) the Run field starts empty, so a run that never passed _new_run falls back to the database
     rn = ctx.prog.cls("run.Run") if hasattr(ctx.prog, "cls") else None
     if rn is not None and asg is not None:
@@ -498,7 +516,7 @@ RULES = [
     Rule("R-C03-5", "amend classifies every input", rule_amend_classification, min_instances=12),
     Rule("R-C03-6", "defer keeps the step wakeable", rule_defer_keeps_wakeable, min_instances=4),
     Rule("R-C03-7", "freshness test orientation and clock bookkeeping", rule_freshness, min_instances=7),
-    Rule("R-C03-9", "the comparison after the command uses the hashes verified at run start", rule_after_baseline, min_instances=8),
+    Rule("R-C03-9", "the comparison after the command uses the hashes verified at run start", rule_after_baseline, min_instances=9),
     Rule("R-C03-8", "amend-time, defer-time and report-time predicates agree", rule_three_predicates, min_instances=20),
 ]
 
@@ -516,6 +534,7 @@ MUTANTS = [
     Mutant("run-start-hashes-on-failure-only", "executor.py", in_function("Executor._new_run", lambda s: s.replace("            run.start_inp_hashes = dict(inp_hashes)\n", "", 1).replace("        unexpected_input_changes = len(new_inp_hashes) > 0\n", "        run.start_inp_hashes = dict(inp_hashes)\n        unexpected_input_changes = len(new_inp_hashes) > 0\n", 1) if "run.start_inp_hashes = dict(inp_hashes)" in s else None), ("R-C03-9",)),
     Mutant("amended-inputs-without-baseline", "director.py", in_function("DirectorHandler.amend_step", replace_once("        self.executor.note_input_hashes(job_i, inp_hashes)\n", "")), ("R-C03-9",)),
     Mutant("amend-overrides-run-start-hashes", "executor.py", in_function("Executor.note_input_hashes", replace_once("            run.start_inp_hashes.setdefault(path, inp_hash)\n", "            run.start_inp_hashes[path] = inp_hash\n")), ("R-C03-9",)),
+    Mutant("baseline-before-promoted-hashes", "director.py", in_function("DirectorHandler.amend_step", lambda t: t.replace("        # The step may read the amended inputs from here on.\n        # What they look like now is what the check after the command has to compare with.\n        async with self.db:\n            inp_hashes = {\n                record.path: record.hash\n                for record in step.inp_paths()\n                if record.state in (FileState.BUILT, FileState.CONFIRMED)\n            }\n        self.executor.note_input_hashes(job_i, inp_hashes)\n", "", 1).replace("        if to_check:\n", "        async with self.db:\n            inp_hashes = {\n                record.path: record.hash\n                for record in step.inp_paths()\n                if record.state in (FileState.BUILT, FileState.CONFIRMED)\n            }\n        self.executor.note_input_hashes(job_i, inp_hashes)\n        if to_check:\n", 1) if "self.executor.note_input_hashes(job_i, inp_hashes)" in t and "        if to_check:\n" in t else None), ("R-C03-9",)),
     Mutant("await-in-completion", "executor.py", in_function("Executor.execute_job", replace_once("            run.interrupted_defer = step.mark_completed(new_hash, wants_defer)\n", "            run.interrupted_defer = step.mark_completed(new_hash, wants_defer)\n            await asyncio.sleep(0)\n")), ("R-C03-4",)),
     Mutant("stop-clock-after-region", "executor.py", in_function("Executor.execute_job", lambda s: s.replace("            self.scheduler.record_run_stopped(step.i, succeeded=new_hash is not None)\n", "", 1).replace("        self._report_step_counts()\n\n        # Report the result of running the step\n", "        self.scheduler.record_run_stopped(step.i, succeeded=new_hash is not None)\n        self._report_step_counts()\n\n        # Report the result of running the step\n", 1) if "# Report the result of running the step" in s else None), ("R-C03-4",)),
     Mutant("unconfirmed-accepted", "workflow.py", in_function("Workflow.amend_step", replace_once("            elif availability == Availability.UNCONFIRMED:\n                unconfirmed.add(info.file)\n", "            elif availability == Availability.UNCONFIRMED:\n                pass\n")), ("R-C03-5",)),
